@@ -231,9 +231,14 @@ class Program:
                             t0 = ast.parse(f.read())
                     except (OSError, SyntaxError):
                         continue
+                    defined_here = {x.name for x in ast.walk(t0) if isinstance(x, (ast.FunctionDef, ast.AsyncFunctionDef))}
                     for x in ast.walk(t0):
                         if isinstance(x, ast.ImportFrom):
                             self.imported_names.update(a.name for a in x.names)
+                        # a method used through self / cls that is not defined in this file lives in a base class of
+                        # another module: it must survive there even if all of its local uses were inlined
+                        if isinstance(x, ast.Attribute) and isinstance(x.value, ast.Name) and x.value.id in ("self", "cls") and x.attr not in defined_here:
+                            self.imported_names.add(x.attr)
                     from .normalize import collect_required_signatures
 
                     collect_required_signatures(t0, self.req_sigs)
